@@ -672,6 +672,14 @@ macro_rules! impl_tuples {
             fn inline() -> String {
                 format!("[{}]", [$(<$i as $crate::TS>::inline()),*].join(", "))
             }
+            fn visit_dependencies(v: &mut impl TypeVisitor)
+            where
+                Self: 'static
+            {
+                $(
+                    <$i as $crate::TS>::visit_dependencies(v);
+                )*
+            }
             fn visit_generics(v: &mut impl TypeVisitor)
             where
                 Self: 'static
